@@ -229,6 +229,15 @@ def check(ctx):
           and fact_key('chan == CHAN_LOGDATA', True) not in g.fact_keys_at(n)}
     ctx.inst('R6', cb, 'ack-fields', st.get('cmd') == 'packet.data[0]' and st.get('payload') == 'packet.data[1:]' and st.get('error_status') == 'payload[1]' and st.get('block') == 'self._find_block(id)',
              'cmd = data[0], block id = payload[0], status = payload[1]')
+    # the flag callbacks fire from the flag setters (on a change of the flag); the packet handler itself calls them only to report a
+    # refused request (error status, value False).  A second direct call - say to "make a duplicate visible" - fires the callback twice
+    direct = [(n, c) for n, c in g.find(lambda q: method_call(q, 'call') and norm(q.func.value).split('.')[-1] in ('added_cb', 'started_cb'))]
+    okd = all(fact_key('error_status == 0', False) in g.fact_keys_at(n) and c.args and isinstance(c.args[-1], ast.Constant) and c.args[-1].value is False for n, c in direct)
+    elsewhere = ['%s:%s' % (f_.qualname, norm(c)) for f_ in m.mod(LOG).all_funcs() if f_.qualname not in ('Log._new_packet_cb', 'LogConfig._set_added', 'LogConfig._set_started')
+                 for c in walk_own(f_.node) if method_call(c, 'call') and norm(c.func.value).split('.')[-1] in ('added_cb', 'started_cb')]
+    ctx.inst('R6', cb, 'flag-callbacks-only-from-setters', okd and not elsewhere,
+             'added_cb / started_cb are called by the flag setters; the acknowledgement handler calls them directly only with False under an error status; '
+             'direct calls: %s, elsewhere: %s' % ([norm(c) for _, c in direct], elsewhere))
     for prop_name, setter in (('added', '_set_added'), ('started', '_set_started')):
         f = C.method(setter)
         body = effective(f.node.body)
@@ -287,6 +296,16 @@ def check(ctx):
             ctx.inst('R7', cb, 'timestamp-little-endian', B_.is_input_field(tb, 0, 8, 't0') and B_.is_input_field(tb, 8, 8, 't1') and B_.is_input_field(tb, 16, 8, 't2') and all(b == 0 for b in tb[24:]),
                      '24-bit timestamp = t0 | t1 << 8 | t2 << 16; bits %s' % B_.describe(tb, 24))
     ul = C.method('unpack_log_data')
+    # each sample is a dictionary of its own: the receivers (SyncLogger's queue) keep the object they were given, a re-used scratch
+    # dictionary makes every queued sample show the newest packet
+    gul = cfg_of(ul)
+    dc = gul.find(lambda q: method_call(q, 'call') and norm(q.func.value).endswith('data_received_cb'))
+    okf = len(dc) == 1 and len(dc[0][1].args) == 3 and isinstance(dc[0][1].args[1], ast.Name)
+    if okf:
+        ds = gul.reaching_defs(dc[0][0], dc[0][1].args[1].id)
+        dv = [gul.def_value(d, dc[0][1].args[1].id) for d in ds]
+        okf = len(ds) == 1 and dv[0] is not None and norm(dv[0]) in ('{}', 'dict()')
+    ctx.inst('R7', ul, 'fresh-sample-per-packet', okf, 'the decoded values are collected in a dictionary created for this packet ({} / dict()), not in an object kept on the block')
     lp = [l for l in walk_own(ul.node) if isinstance(l, ast.For)]
     ctx.need(len(lp) == 1, 'unpack_log_data: loop not found')
     body = {norm(s.targets[0]) if isinstance(s, ast.Assign) else norm(s.target): norm(s.value) for s in lp[0].body if isinstance(s, (ast.Assign, ast.AugAssign))}
